@@ -841,6 +841,9 @@ type progOpts struct {
 	customFail bool // allow draws from a Custom generator whose function itself signals failures (on its inner T)
 	skipFirst  int  // if > 0: skip about 1/skipFirst of all cases right after the first draw
 	skipAfter  bool // add a skip after the failure steps (non-fatal failure followed by Skip)
+	// every action of the state machine has a failure site of its own that is reached through a fatal T method
+	// (Fatal/Fatalf/FailNow): several bugs that differ only in WHERE inside which action the test was stopped
+	fatalActions bool
 }
 
 func genProg(seed uint64, o progOpts) *Prog {
@@ -884,7 +887,7 @@ func genProg(seed uint64, o progOpts) *Prog {
 			p.Steps = append(p.Steps, Step{Op: "ctx"})
 		}
 	}
-	if o.repeat && r.chance(1, 2) {
+	if o.repeat && (r.chance(1, 2) || o.fatalActions) {
 		p.Steps = append(p.Steps, genRepeat(r, o))
 	}
 	if o.goroutines && r.chance(1, 3) {
@@ -1055,6 +1058,9 @@ func (o progOpts) failPred(r *rng, p *Prog, sibling bool) Pred {
 func genRepeat(r *rng, o progOpts) Step {
 	st := Step{Op: "repeat", Shared: r.chance(1, 3)}
 	na := r.between(1, 4)
+	if o.fatalActions {
+		na = r.between(2, 4)
+	}
 	for i := 0; i < na; i++ {
 		a := Action{Name: fmt.Sprintf("A%d", i)}
 		// skip before drawing (state dependent or hash of earlier draws)
@@ -1074,7 +1080,10 @@ func genRepeat(r *rng, o progOpts) Step {
 		if nd > 0 && r.chance(1, 3) {
 			a.Steps = append(a.Steps, Step{Op: "skipif", Pred: hashPred(r, r.between(2, 6))}) // skip after drawing
 		}
-		if r.chance(1, 3) {
+		if o.fatalActions {
+			// different densities: the failure found first is rarely the one with the smallest counterexample
+			a.Steps = append(a.Steps, Step{Op: "failif", Pred: hashPred(r, pick(r, []int{3, 8, 20, 60})), Kind: pick(r, []int{fkFatal, fkFatalf, fkFailNow}), Site: (1 + i) % len(sites)})
+		} else if r.chance(1, 3) {
 			a.Steps = append(a.Steps, Step{Op: "failif", Pred: hashPred(r, o.den(r)*4), Kind: o.pickKind(r), Site: 3 + i%3})
 		}
 		if nd > 0 {
